@@ -138,7 +138,11 @@ impl Check for C20 {
                     }
                 }));
             }
+            // a library that lists directories where it should not must show up
+            // as a violation, not as an exhausted step budget
+            w.sim.lock().sched.max_steps = 50_000_000;
             if warm {
+                w.sim.lock().keep_trace = false;
                 // 600 writes of unrelated keys through the same handle; the
                 // trigger never fires (huge capacity, scripted draws)
                 for i in 0..600u32 {
@@ -159,6 +163,7 @@ impl Check for C20 {
                         break;
                     }
                 }
+                w.sim.lock().keep_trace = true;
             }
             let base = w.sim.lock().procs[0].fds.len();
             let mark = w.trace_len();
